@@ -1,7 +1,7 @@
 /*  BOUNDED stand-in (labelled bounded, never counted as proved) for the schedule-quantified properties C03, C05, C06 on `build()`
     as a whole: the verifier decides per-thread contracts and composition lemmas, not interleavings.  DelaySystem wraps the crate's
     FakeSystem and pauses chosen operations (a rule's command, the reading of a leaf file) for a chosen time, which pushes the rule
-    threads of the real `build()` into different orders.  Every assignment of {no delay, delay} to six delay points is one
+    threads of the real `build()` into different orders.  Every assignment of a delay level (0, 40 ms; in the thorough tier also 80 ms) to six delay points is one
     schedule; every scenario of a small corpus is run under all of them:
       C05  build() returns (no hang within the time-out) and does not panic
       C04  a missing leaf is reported by exactly one error and every rule that does not depend on it is still brought up to date
@@ -179,9 +179,10 @@ fn verif_sched_twins()
     let points : [(&str, &str); 4] = [("rename", "a.txt"), ("rename", "b.txt"), ("open", "a.txt"), ("open", "b.txt")];
     let (mut c04, mut b04, mut c05, mut b05, mut c06, mut b06) = (0usize, 0usize, 0usize, 0usize, 0usize, 0usize);
     let mut reference : Option<(String, Vec<Option<String>>, String)> = None;
-    for code in 0..(1usize << points.len())
+    let levels : usize = std::env::var("VERIF_SCHED_LEVELS").ok().and_then(|s| s.parse().ok()).unwrap_or(2);
+    for code in 0..levels.pow(points.len() as u32)
     {
-        let delays : Vec<(&'static str, &'static str, u64)> = points.iter().enumerate().map(|(i, (o, s))| (*o, *s, if (code >> i) & 1 == 1 { DELAY_MS } else { 0 })).collect();
+        let delays : Vec<(&'static str, &'static str, u64)> = points.iter().enumerate().map(|(i, (o, s))| (*o, *s, ((code / levels.pow(i as u32)) % levels) as u64 * DELAY_MS)).collect();
         let label = format!("twin left-over targets, delays {:?}", delays.iter().map(|d| d.2).collect::<Vec<u64>>());
         let mut system = FakeSystem::new(10);
         write_str_to_file(&mut system, "build.rules", RULES_TWINS).unwrap();
@@ -218,6 +219,137 @@ fn verif_sched_twins()
     println!("SUMMARY B-sched-twins-C06 cases={} disagreements={}", c06, b06);
 }
 
+/*  generic runner for the small corpora below: one rules text, a set-up, delay points, and what every schedule must give */
+fn run_corpus(name: &str, rules: &str, setup: fn(&mut FakeSystem), points: &[(&'static str, &'static str)], targets: &[&str],
+              want_verdict: Option<&str>, forbidden_commands: &[&str], tallies: &mut [(usize, usize); 4])
+{
+    let levels : usize = std::env::var("VERIF_SCHED_LEVELS").ok().and_then(|s| s.parse().ok()).unwrap_or(2);
+    let mut reference : Option<(String, Vec<Option<String>>, String)> = None;
+    for code in 0..levels.pow(points.len() as u32)
+    {
+        let delays : Vec<(&'static str, &'static str, u64)> = points.iter().enumerate().map(|(i, (o, s))| (*o, *s, ((code / levels.pow(i as u32)) % levels) as u64 * DELAY_MS)).collect();
+        let label = format!("{}, delays {:?}", name, delays.iter().map(|d| d.2).collect::<Vec<u64>>());
+        let mut system = FakeSystem::new(10);
+        write_str_to_file(&mut system, "build.rules", rules).unwrap();
+        setup(&mut system);
+        system.time_passes(1);
+        let log_before = system.get_command_log().len();
+        let ds = DelaySystem { inner: system.clone(), delays: Arc::new(delays) };
+        let (tx, rx) = mpsc::channel();
+        std::thread::spawn(move || { let r = catch_unwind(AssertUnwindSafe(|| build(ds, &mut EmptyPrinter::new(), params()))); let _ = tx.send(r); });
+        tallies[2].0 += 1;
+        let result = match rx.recv_timeout(Duration::from_secs(20))
+        {
+            Err(_) => { tallies[2].1 += 1; println!("WITNESS B-sched-C05 :: {} :: build() did not return within 20 s", label); continue; },
+            Ok(Err(_)) => { tallies[2].1 += 1; println!("WITNESS B-sched-C05 :: {} :: build() panicked", label); continue; },
+            Ok(Ok(r)) => r,
+        };
+        /*  a moment for threads the build may have left behind (a build that gave up early does not join them) */
+        std::thread::sleep(Duration::from_millis(60));
+        let v = verdict(&result);
+        let finals : Vec<Option<String>> = targets.iter().map(|t| read(&system, t)).collect();
+        let log : Vec<String> = system.get_command_log()[log_before..].to_vec();
+        tallies[0].0 += 1;
+        for f in forbidden_commands.iter() { if log.iter().any(|c| c.starts_with(f)) { tallies[0].1 += 1; println!("WITNESS B-sched-C03 :: {} :: `{}` ran although the rule that makes its source did not finish", label, f); break; } }
+        if let Some(w) = want_verdict { tallies[1].0 += 1; if v != w { tallies[1].1 += 1; if tallies[1].1 <= 4 { println!("WITNESS B-sched-C04 :: {} :: verdict {}, expected {}", label, v, w); } } }
+        tallies[3].0 += 1;
+        match &reference
+        {
+            None => reference = Some((v, finals, label.clone())),
+            Some((rv, rf, rl)) => if *rv != v || *rf != finals { tallies[3].1 += 1; if tallies[3].1 <= 4 { println!("WITNESS B-sched-C06 :: {} :: outcome {} {:?} differs from {} {:?} under [{}]", label, v, finals, rv, rf, rl); } },
+        }
+    }
+}
+/*  two rules fail in the same way in one build: two errors */
+const RULES_TWO_FAIL : &str = "\
+left.txt
+:
+in.txt
+:
+error
+:
+
+right.txt
+:
+in.txt
+:
+error
+:
+
+middle.txt
+:
+in.txt
+:
+mycat
+in.txt
+middle.txt
+:
+";
+fn setup_in(s: &mut FakeSystem) { write_str_to_file(s, "in.txt", "input\n").unwrap(); }
+/*  a rule with two missing leaves and a slow one between them in receive order, and a dependent: one error per missing leaf */
+const RULES_FANIN : &str = "\
+middle.txt
+:
+a_missing.txt
+m_slow.txt
+z_missing.txt
+:
+mycat
+a_missing.txt
+m_slow.txt
+z_missing.txt
+middle.txt
+:
+
+poem.txt
+:
+middle.txt
+:
+mycat
+middle.txt
+poem.txt
+:
+";
+fn setup_fanin(s: &mut FakeSystem) { write_str_to_file(s, "m_slow.txt", "slow\n").unwrap(); }
+/*  two rules whose remembered targets are the same bytes: after a clean ONE cache entry serves both; whoever comes second rebuilds */
+const RULES_SHARED : &str = "\
+a.txt
+:
+in.txt
+:
+mycat
+in.txt
+a.txt
+:
+
+b.txt
+:
+in.txt
+:
+mycat
+in.txt
+b.txt
+:
+";
+fn setup_shared(s: &mut FakeSystem)
+{
+    write_str_to_file(s, "in.txt", "input\n").unwrap();
+    build(s.clone(), &mut EmptyPrinter::new(), params()).unwrap(); s.time_passes(1);
+    crate::build::clean(s.clone(), ".ruler", vec!["build.rules".to_string()], None).unwrap();
+}
+#[test]
+fn verif_sched_corpora()
+{
+    std::panic::set_hook(Box::new(|_| {}));
+    let mut t = [(0usize, 0usize); 4];
+    run_corpus("two rules fail alike", RULES_TWO_FAIL, setup_in, &[("open", "in.txt"), ("command", "middle.txt")], &["left.txt", "right.txt", "middle.txt"],
+               Some("WorkErrors[\"Command executed but errored\", \"Command executed but errored\"]"), &[], &mut t);
+    run_corpus("two missing leaves around a slow one", RULES_FANIN, setup_fanin, &[("open", "m_slow.txt"), ("command", "poem.txt")], &["middle.txt", "poem.txt"],
+               Some("WorkErrors[\"File not found: a_missing.txt\", \"File not found: z_missing.txt\"]"), &["mycat middle.txt poem.txt"], &mut t);
+    run_corpus("one cache entry for two rules", RULES_SHARED, setup_shared, &[("open", ".ruler/cache"), ("rename", "a.txt"), ("rename", "b.txt")], &["a.txt", "b.txt"], Some("Ok"), &[], &mut t);
+    for (k, n) in ["C03", "C04", "C05", "C06"].iter().enumerate() { println!("SUMMARY B-sched-corpora-{} cases={} disagreements={}", n, t[k].0, t[k].1); }
+}
+
 #[test]
 fn verif_sched_build()
 {
@@ -237,9 +369,10 @@ fn verif_sched_build()
     for sc in scenarios.iter()
     {
         let mut reference : Option<(String, Vec<Option<String>>, String)> = None;
-        for code in 0..(1usize << POINTS.len())
+        let levels : usize = std::env::var("VERIF_SCHED_LEVELS").ok().and_then(|s| s.parse().ok()).unwrap_or(2);
+        for code in 0..levels.pow(POINTS.len() as u32)
         {
-            let delays : Vec<(&'static str, &'static str, u64)> = POINTS.iter().enumerate().map(|(i, (o, s))| (*o, *s, if (code >> i) & 1 == 1 { DELAY_MS } else { 0 })).collect();
+            let delays : Vec<(&'static str, &'static str, u64)> = POINTS.iter().enumerate().map(|(i, (o, s))| (*o, *s, ((code / levels.pow(i as u32)) % levels) as u64 * DELAY_MS)).collect();
             let label = format!("{} delays {:?}", sc.name, delays.iter().map(|d| d.2).collect::<Vec<u64>>());
             let system = (sc.make)();
             let log_before = system.get_command_log().len();
